@@ -362,8 +362,10 @@ CURRENT_PROP = [None]   # set by Ctx: which property is being checked (decides t
 PROP_FOCUS = {
     "C01": ("to_array", "idxs_pit", "mask"), "C02": ("to_array", "idxs_seq", "basins", "upstream_area", "rank"),
     "C03": ("rank", "idxs_seq", "nnodes", "isvalid", "n_upstream", "idxs_pit"),
-    "C04": ("upstream_area", "accuflux", "area"), "C05": ("basins", "basin_outlets", "basin_bounds", "interbasin_mask"),
-    "C08": ("stream_order", "main_upstream", "idxs_us_main", "upstream_area"),
+    "C04": ("upstream_area", "accuflux", "area", "ucat", "hand_floodplains"),
+    "C05": ("basins", "basin_outlets", "basin_bounds", "interbasin_mask", "inflow_outflow_idxs"),
+    "C08": ("stream_order", "main_upstream", "idxs_us_main", "upstream_area", "subbasins_streamorder", "streams",
+            "moving_average", "subbasins_area"),
     "C09": ("upstream_area", "idxs_us_main"), "C10": ("upstream_area", "idxs_us_main", "distnc", "hand_floodplains", "subgrid_riv", "ucat"),
     "C11": ("path", "snap", "idxs_us_main", "distnc"),
     "C14": ("moving_average", "moving_median", "fillnodata", "stream_distance", "hand_floodplains", "smooth_rivlen",
@@ -566,7 +568,7 @@ def _vary(x, rng):
     return x
 
 
-def install_layout_variation(p=0.25):
+def install_layout_variation(p=0.35):
     """wrap the public methods of Flwdir / FlwdirRaster and the public module-level functions"""
     if os.environ.get("PF_NO_LAYOUT") == "1":
         return
@@ -591,13 +593,25 @@ def install_layout_variation(p=0.25):
                     depth[0] -= 1
             LAYOUT_STATS["api_calls"] += 1
             k0 = 1 if skip_self else 0
+            orig = list(args[k0:]) + list(kwargs.values())
             args = tuple(args[:k0]) + tuple(_vary(a, _LAY_RNG) for a in args[k0:])
             kwargs = {k: _vary(v, _LAY_RNG) for k, v in kwargs.items()}
+            mine = [b for a, b in zip(orig, list(args[k0:]) + list(kwargs.values())) if b is not a]
             depth[0] += 1
             try:
-                return fn(*args, **kwargs)
+                out = fn(*args, **kwargs)
             finally:
                 depth[0] -= 1
+            # The stand-in arrays belong to this wrapper: like a caller re-filling its buffers after the call, it
+            # overwrites them (same values, reversed positions) - unless the result is a view of one of them. An
+            # implementation that kept a reference to an argument for later calls now holds something else.
+            res = [x for x in (out if isinstance(out, (tuple, list)) else [out]) if isinstance(x, np.ndarray)]
+            for b in mine:
+                for y in (b if isinstance(b, tuple) else (b,)):
+                    if isinstance(y, np.ndarray) and y.flags.writeable and not any(np.shares_memory(y, r) for r in res):
+                        y[...] = y[::-1].copy() if y.ndim == 1 else np.ascontiguousarray(y).ravel()[::-1].reshape(y.shape)
+                        LAYOUT_STATS["scribbled_after_call"] = LAYOUT_STATS.get("scribbled_after_call", 0) + 1
+            return out
         wrapped._pf_layout = True
         return wrapped
     for cls in (Flwdir, FlwdirRaster):
